@@ -15,7 +15,7 @@ def _scene_list(ctx):
     s2 = {"shape": [6, 6, 10], "bounds": pmlz, "pml": 3, "sources": [{"pos": [3, 3, 5], "pol": 1}, {"pos": [2, 3, 5], "pol": 2, "kind": "mdipole"}],
           "detectors": [{"kind": "poynting", "name": "pf", "lo": [1, 1, 6], "hi": [5, 5, 7], "axis": 2}, {"kind": "phasor", "name": "ph", "lo": [2, 2, 4], "hi": [4, 4, 6]}]}
     s3 = {"shape": [7, 6, 8], "bounds": {"min_x": "pec", "max_x": "pmc", "min_z": "pml", "max_z": "pec"}, "pml": 3, "sources": [{"pos": [3, 3, 4], "pol": 1}],
-          "slab": {"lo": [1, 1, 3], "hi": [5, 5, 5], "eps": 2.5, "sigma": 500.0}, "detectors": [{"kind": "energy", "name": "en", "lo": [1, 1, 3], "hi": [5, 5, 6]}]}
+          "slab": {"lo": [1, 1, 3], "hi": [5, 5, 5], "eps": 2.5, "mu": 1.5, "sigma": 500.0, "sigma_m": 2e5}, "detectors": [{"kind": "energy", "name": "en", "lo": [1, 1, 3], "hi": [5, 5, 6]}]}
     return [("periodic", s1), ("pmlz", s2), ("walls-lossy", s3)]
 
 
